@@ -67,6 +67,45 @@ CHECKS = {
             'changes to untouched resources are all visible against the reference placement.',
             'Trusted: the placement models; order of fields in the concatenated schema not judged; copies '
             'compared by value (float may come back as Decimal).', '3/C16'),
+    'C03': ('io-lab', 'exploration',
+            'runtime monitor: round trip through the real load() + independent descriptor-driven decoder '
+            '(csv.reader/json + tableschema Field) over the written bytes',
+            'Typed tables over ten field types x hostile value classes x csv/json x path/zip x '
+            'add_filehash_to_path x temporal_format_property x non-alphabetical field orders are dumped by the '
+            'real dumpers; both the real load() and an independent decoder must give back the typed values '
+            'that entered the dumper.',
+            'Trusted: csv/json stdlib + tableschema cast as the independent decoder. Two recorded known '
+            'findings (empty string == null after a dump; CRLF in a cell read back as LF by the loader).',
+            '3/C03'),
+    'C07': ('io-lab', 'exploration',
+            'runtime monitor: run/delete/run histories with side-effect counters in upstream steps; results of '
+            'every run compared type-strictly with run 1',
+            'Histories of 2..5 runs/deletions over 1..3 chained checkpoints on tables covering the extended '
+            'JSON value domain; a counter model ("steps before the last existing checkpoint do not execute", '
+            'package phase included) and type-strict equality with the first run decide.',
+            'Trusted: the counter model; each run uses a fresh Flow object.', '3/C07'),
+    'C09': ('io-lab', 'exploration',
+            'runtime monitor: independent size/md5/row count of every written file vs the written descriptor, '
+            'package totals, returned stats, and a second dump',
+            'Tables (multi-byte text, empty resources) x csv/json x path/zip x renamed/dotted/disabled counters '
+            'x add_filehash_to_path x pretty_descriptor are dumped twice; recorded path/bytes/hash/row count '
+            'are recomputed from the bytes on disk or in the zip.',
+            'Trusted: hashlib/len/csv/json. Known finding recorded: returned stats[bytes] includes the size of '
+            'datapackage.json.', '3/C09'),
+    'C13': ('io-lab', 'exploration',
+            'runtime monitor: independent csv.reader pass over the generated bytes as truth; option semantics '
+            'derived from it; schema cast judged with tableschema Field',
+            'Generated CSV files x header classes x infer/cast strategies x on_error x strip x limit_rows x name '
+            'x header de-duplication, plus package / (descriptor, iterators) sources x selector forms; raw rows '
+            'from Flow.datastream() are compared cell by cell.',
+            'Trusted: csv stdlib; inference itself not judged; empty cell may be \'\' or None.', '3/C13'),
+    'C20': ('io-lab', 'exploration',
+            'runtime monitor: sequential table model replayed against SELECT * (sqlite3 stdlib) after every '
+            'dump of a history; downstream rows and updated flags compared with the model',
+            'Histories of 1..5 dumps into one SQLite table x mode per dump x explicit/primary-key update keys x '
+            'batch size x bloom filter x array/object columns x duplicate keys inside a dump.',
+            'Trusted: the table model; JSON columns compared after json.loads (SQLite stores JSON text and the '
+            'same text is handed downstream).', '3/C20'),
 }
 
 NOT_BUILT_REASON = 'check not built yet in this round (design in DESIGN.md section 3); no claim made'
@@ -96,6 +135,8 @@ def main():
         'engines': [
             {'name': 'pipeline-lab', 'path': 'vlib/lab.py', 'kind_free_text':
              'generated pipelines run on the real library; reference-model and differential oracles'},
+            {'name': 'io-lab', 'path': 'vlib/iolab.py', 'kind_free_text':
+             'independent readers (csv/json/zip/sqlite3/md5) over the artifacts the real code wrote'},
         ],
         'checks': [],
         'not_applicable': [],
